@@ -57,6 +57,8 @@ def wrap(rng, vals, kind, name="v"):
         return pd.DataFrame({name: list(vals)}, index=gen.hostile_index(n, ik, rng)), True
     if kind == "dict":
         return {name: np.asarray(vals)}, False
+    if kind == "series_cat":  # a pandas categorical column (what read_csv(dtype="category") / astype("category") yields) with its own index
+        return pd.Series(pd.Categorical(list(vals)), index=gen.hostile_index(n, ik, rng), name=gen.pick(rng, [None, name])), True
     if kind == "dict_series":  # a dict whose value is a pandas object carrying its own index labels
         return {name: pd.Series(list(vals), index=gen.hostile_index(n, ik, rng))}, True
     raise ValueError(kind)
@@ -160,8 +162,14 @@ def api_moments(d, args):
     out = {}
     n = d["n"]
     h = d["h"]
+    reuse = args.get("_moment_objects")  # the same moment objects loaded again (as a second fit of a reduction does)
     for kind in RM.PARITY:
-        m = getattr(red, kind)(difference_bound=0.05) if kind != "EqualizedOdds" else getattr(red, kind)(ratio_bound=0.8, ratio_bound_slack=0.02)
+        if reuse is not None and kind in reuse:
+            m = reuse[kind]
+        else:
+            m = getattr(red, kind)(difference_bound=0.05) if kind != "EqualizedOdds" else getattr(red, kind)(ratio_bound=0.8, ratio_bound_slack=0.02)
+            if reuse is not None:
+                reuse[kind] = m
         kw = {"sensitive_features": args["g"]}
         if args.get("c") is not None:
             kw["control_features"] = args["c"]
@@ -227,14 +235,14 @@ def api_threshold(d, args):
 API = {"metricframe": api_metricframe, "metricframe2": api_metricframe2, "fairness": api_fairness, "moments": api_moments, "eg": api_eg, "grid": api_grid, "threshold": api_threshold}
 # accepted container kinds per argument and API
 KINDS = {
-    "metricframe": {"y": VEC, "p": VEC, "w": ["list", "ndarray", "series"], "g": ["list", "ndarray", "series", "df_named", "dict", "dict_series", "col"],
-                    "c": ["list", "ndarray", "series", "df_named", "dict", "dict_series"]},
-    "fairness": {"y": VEC, "p": VEC, "w": ["list", "ndarray", "series"], "g": ["list", "ndarray", "series", "df_named", "dict", "dict_series"]},
+    "metricframe": {"y": VEC, "p": VEC, "w": ["list", "ndarray", "series"], "g": ["list", "ndarray", "series", "series_cat", "df_named", "dict", "dict_series", "col"],
+                    "c": ["list", "ndarray", "series", "series_cat", "df_named", "dict", "dict_series"]},
+    "fairness": {"y": VEC, "p": VEC, "w": ["list", "ndarray", "series"], "g": ["list", "ndarray", "series", "series_cat", "df_named", "dict", "dict_series"]},
     "metricframe2": {"y": VEC, "p": VEC, "w": ["list", "ndarray", "series"], "g2": ["ndarray2d", "df2", "dict2", "dict2_series", "dict2_series"]},
-    "moments": {"y": VEC, "g": ["list", "ndarray", "series", "df", "df_named"], "c": ["list", "ndarray", "series", "df", "df_named"], "X": ["ndarray", "Xdf"]},
+    "moments": {"y": VEC, "g": ["list", "ndarray", "series", "series_cat", "df", "df_named"], "c": ["list", "ndarray", "series", "series_cat", "df", "df_named"], "X": ["ndarray", "Xdf"]},
     "eg": {"y": VEC, "g": ["list", "ndarray", "series", "df", "df_named"], "c": ["list", "ndarray", "series", "df_named"], "X": ["ndarray", "Xdf"]},
     "grid": {"y": VEC, "g": ["list", "ndarray", "series", "df", "df_named"], "c": ["list", "ndarray", "series", "df_named"], "X": ["ndarray", "Xdf"]},
-    "threshold": {"y": VEC, "g": ["list", "ndarray", "series", "df", "df_named"], "X": ["ndarray", "Xdf"]},
+    "threshold": {"y": VEC, "g": ["list", "ndarray", "series", "series_cat", "df", "df_named"], "X": ["ndarray", "Xdf"]},
 }
 
 
@@ -346,17 +354,29 @@ def run_case(cls, key, seed, ctx):
 
 
 def run_permute(ctx, rng):
-    api = gen.pick(rng, ["metricframe", "fairness"])
+    api = gen.pick(rng, ["metricframe", "fairness", "moments"])
     d = make_data(rng, api)
     args, _, _ = build_args(rng, api, d, True)
+    shared = {} if (api == "moments" and rng.random() < 0.6) else None
+    if api == "moments":
+        args["_moment_objects"] = shared
     base = API[api](d, args)
     perm = rng.permutation(d["n"])
     d2 = dict(d)
     for k in ("y", "g", "p", "w", "c"):
         if d.get(k) is not None:
             d2[k] = [d[k][i] for i in perm]
+    d2["X"], d2["h"] = d["X"][perm], d["h"][perm]
     args2, kinds, _ = build_args(rng, api, d2, False)
+    if api == "moments":
+        args2["_moment_objects"] = shared
+        kinds["moment_objects"] = "the same objects loaded a second time" if shared is not None else "fresh"
     var = API[api](d2, args2)
+    if api == "moments":  # the per-row weights move with the rows: compare them in the original row order
+        inv = np.argsort(perm)
+        for k_ in list(var):
+            if k_.endswith(":signed_weights"):
+                var[k_] = {i: var[k_][int(inv[i])] for i in range(d["n"])}
     wit = {"api": api, "permutation": perm.tolist(), "y": d["y"], "groups": d["g"], "control": d["c"], "containers": kinds}
     ctx.mark(["permute", api, d["n"], len(set(d["g"]))], len(set(d["g"])) >= 2, sample=wit)
     compare(ctx, base, var, "metric_result_changes_under_joint_row_permutation:" + api, wit, counter="permutation_results_compared")
